@@ -231,11 +231,21 @@ pub struct ThreadHooks {
     pub observer: Option<Arc<PointObserver>>,
 }
 
+thread_local! {
+    static IN_POINT: std::cell::Cell<bool> = const { std::cell::Cell::new(false) };
+}
+
 impl utils::verif::Hooks for ThreadHooks {
     fn point(&self, label: &'static str) {
+        // the observer may itself call into hooked code (e.g. take a lock that is a schedule point): points hit from
+        // inside a point are not schedule points
+        if IN_POINT.with(|c| c.replace(true)) {
+            return;
+        }
         if let Some(o) = &self.observer {
             o(self.tid, label);
         }
+        IN_POINT.with(|c| c.set(false));
         self.sched.point(self.tid, label);
     }
     fn rand_usize(&self) -> Option<usize> {
